@@ -13,6 +13,7 @@ pub struct Other;
 impl Message for Other {}
 
 pub struct Dummy;
+#[cfg_attr(feature = "asynctrait", ractor::async_trait)]
 impl Actor for Dummy {
     type Msg = M;
     type State = ();
